@@ -324,9 +324,9 @@ fn parse_size(size: &str) -> Result<i64, ()> {
         let last_char = last_char.to_ascii_uppercase();
 
         match last_char {
-            'K' => Ok(number * 1024),
-            'M' => Ok(number * 1024 * 1024),
-            'G' => Ok(number * 1024 * 1024 * 1024),
+            'K' => number.checked_mul(1024).ok_or(()),
+            'M' => number.checked_mul(1024 * 1024).ok_or(()),
+            'G' => number.checked_mul(1024 * 1024 * 1024).ok_or(()),
             '0'..='9' => size.parse::<i64>().map_err(|_| ()),
             _ => Err(()),
         }
